@@ -243,7 +243,7 @@ def publish_rule(run, f, rid):
             run.ok(rid, "JoinHandle/always-consults-results", "every return passes wait_task_result")
         else:
             run.fail(rid, "JoinHandle/always-consults-results", b.loc(), "timeout_at_join can return without consulting the stored result (a task that finished before an already expired deadline is reported as timed out)")
-    b = need(run, rid, f, POOL + "::wait_task_result")
+    b = unit(run, rid, f, POOL + "::wait_task_result")
     if b is not None:
         du = DefUse(b)
         tk = find_calls(b, callee_is(POOL + "::try_take_task_result"))
@@ -262,7 +262,7 @@ def publish_rule(run, f, rid):
 
 def recheck_rule(run, f, rid):
     run.rule(rid, "wait_task_result re-reads the result after registering its waiter and before blocking (no lost wake-up)", floor=1, template="T3/T1")
-    b = need(run, rid, f, POOL + "::wait_task_result")
+    b = unit(run, rid, f, POOL + "::wait_task_result")     # waiter-registration / take-and-notify helpers are part of it
     if b is None:
         return
     cfg = Cfg(b)
